@@ -33,6 +33,7 @@ func init() {
 			kvPutGrowsStore(r)
 			kvInsertIntoWritableHead(r)
 			kvEntrySizeFormula(r)
+			c20ClosedFragmentCompactionDone(r)
 		},
 	})
 }
